@@ -1,13 +1,20 @@
-(* C01/ProofsReg.v — the registry: every pool keeps its invariant; AllocateFromProfile answers from
-   the override or from the first same-VRF pool of the profile's (priority-sorted) list that has a
-   free address. *)
+(* C01/ProofsReg.v — the registry (IPv4, IA_NA and PD families): every allocator keeps the pool
+   invariant through every registry history; Allocate*FromProfile answers from the override or from
+   the first same-VRF pool of the profile's list that has a free address; ResolveV4/ResolveV6. *)
 From Coq Require Import ZifyBool ZifyNat ZifyN Permutation Sorted.
-From OV Require Import Common.Base C01.Model C01.Proofs.
+From OV Require Import Common.Base C01.Model C01.Proofs C01.ProofsPD.
 Local Open Scope N_scope.
 
 Lemma key_eqb_eq a b : key_eqb a b = true <-> a = b.
 Proof.
   destruct a, b; unfold key_eqb; simpl. rewrite andb_true_iff, !N.eqb_eq.
+  split; [intros [-> ->]; reflexivity | intros H; inversion H; auto].
+Qed.
+Lemma rfam_eqb_eq a b : rfam_eqb a b = true <-> a = b.
+Proof. destruct a, b; simpl; split; congruence. Qed.
+Lemma vkey_eqb_eq a b : vkey_eqb a b = true <-> a = b.
+Proof.
+  destruct a as [f k], b as [g l]; unfold vkey_eqb; simpl. rewrite andb_true_iff, rfam_eqb_eq, key_eqb_eq.
   split; [intros [-> ->]; reflexivity | intros H; inversion H; auto].
 Qed.
 
@@ -34,88 +41,149 @@ Section Assoc.
   Qed.
 End Assoc.
 
-Definition pool_ok (e : key * (pcfg * pstate)) : Prop := Inv (fst (snd e)) (snd (snd e)).
-Definition RInv (st : rstate) : Prop := Forall pool_ok (r_allocs st).
-
-Lemma rinv_find st k c ps : RInv st -> assoc_find key_eqb k (r_allocs st) = Some (c, ps) -> Inv c ps.
+Lemma assoc_find_set_same {A B} (eqb : A -> A -> bool) (R : forall a, eqb a a = true) k (x : B) l :
+  assoc_find eqb k (assoc_set eqb k x l) = Some x.
 Proof.
-  intros F H. destruct (assoc_find_Forall key_eqb pool_ok _ _ _ F H) as [k' [_ HP]]. exact HP.
+  induction l as [|[k' y] r IH]; simpl.
+  - rewrite R. reflexivity.
+  - destruct (eqb k k') eqn:E; simpl; [rewrite R; reflexivity | rewrite E; exact IH].
 Qed.
 
-Lemma rinv_set st k c ps : RInv st -> Inv c ps -> RInv (set_alloc st k c ps).
+(* ---------------------------------------------------------------- state accessors *)
+Lemma allocs_set st f m g : r_allocs (set_allocs st f m) g = if rfam_eqb f g then m else r_allocs st g.
+Proof. destruct f, g; reflexivity. Qed.
+Lemma allocs_set_lists st f l g : r_allocs (set_lists st f l) g = r_allocs st g.
+Proof. destruct f, g; reflexivity. Qed.
+Lemma allocs_set_vrfs st m g : r_allocs (set_vrfs st m) g = r_allocs st g.
+Proof. destruct g; reflexivity. Qed.
+Lemma lists_set_allocs st f m g : r_lists (set_allocs st f m) g = r_lists st g.
+Proof. destruct f, g; reflexivity. Qed.
+Lemma lists_set_vrfs st m g : r_lists (set_vrfs st m) g = r_lists st g.
+Proof. destruct g; reflexivity. Qed.
+Lemma lists_set st f l g : r_lists (set_lists st f l) g = if rfam_eqb f g then l else r_lists st g.
+Proof. destruct f, g; reflexivity. Qed.
+
+(* ---------------------------------------------------------------- the invariant *)
+Definition pool_ok (e : key * (acfg * pstate)) : Prop := Inv (acfg_pool (fst (snd e))) (snd (snd e)).
+Definition RInv (st : rstate) : Prop := forall f, Forall pool_ok (r_allocs st f).
+
+Lemma rinv_find st f k ac ps :
+  RInv st -> assoc_find key_eqb k (r_allocs st f) = Some (ac, ps) -> Inv (acfg_pool ac) ps.
 Proof.
-  intros F H. unfold RInv, set_alloc; simpl. apply assoc_set_Forall; auto.
+  intros F H. destruct (assoc_find_Forall key_eqb pool_ok _ _ _ (F f) H) as [k' [_ HP]]. exact HP.
 Qed.
 
-Lemma rinv_on_pool st k pc st' o : RInv st -> on_pool Repaired st k pc = Some (st', o) -> RInv st'.
+Lemma rinv_set_allocs st f m : RInv st -> Forall pool_ok m -> RInv (set_allocs st f m).
+Proof. intros F H g. rewrite allocs_set. destruct (rfam_eqb f g); [exact H | apply F]. Qed.
+
+Lemma rinv_on_pool st f k mk st' o : RInv st -> on_pool Repaired st f k mk = Some (st', o) -> RInv st'.
 Proof.
   unfold on_pool. intros F H.
-  destruct (assoc_find key_eqb k (r_allocs st)) as [[c ps]|] eqn:E; [|discriminate].
-  destruct (pool_call Repaired c ps pc) as [[ps' o']|] eqn:C; [|discriminate].
-  inversion H; subst. apply rinv_set; [exact F|]. eapply inv_call; [eapply rinv_find; eauto | exact C].
+  destruct (assoc_find key_eqb k (r_allocs st f)) as [[ac ps]|] eqn:E; [|discriminate].
+  destruct (mk ac) as [pc|]; [|discriminate].
+  destruct (pool_step Repaired (acfg_pool ac) ps pc) as [[ps' o']|] eqn:C; [|discriminate].
+  inversion H; subst. apply rinv_set_allocs; [exact F|].
+  assert (HI : Inv (acfg_pool ac) ps') by (eapply inv_step; [eapply rinv_find; eauto | exact C]).
+  apply assoc_set_Forall; [apply F | intros; exact HI | exact HI].
 Qed.
 
-Lemma rinv_map st (pc : call) :
-  RInv st ->
-  Forall pool_ok (map (fun e => match pool_call Repaired (fst (snd e)) (snd (snd e)) pc with
-                                | Some (ps', _) => (fst e, (fst (snd e), ps'))
-                                | None => e end) (r_allocs st)).
+Lemma rinv_map st f mk : RInv st -> RInv (map_pools Repaired st f mk).
 Proof.
-  unfold RInv. induction (r_allocs st) as [|e r IH]; simpl; intros F; [constructor|].
+  intros F. unfold map_pools. apply rinv_set_allocs; [exact F|].
+  specialize (F f). induction (r_allocs st f) as [|e r IH]; simpl; [constructor|].
   inversion F; subst. constructor; [|auto].
-  destruct (pool_call Repaired (fst (snd e)) (snd (snd e)) pc) as [[ps' o]|] eqn:C; [|assumption].
-  unfold pool_ok; simpl. eapply inv_call; eauto.
+  destruct (mk (fst (snd e))) as [pc|]; [|assumption].
+  destruct (pool_step Repaired (acfg_pool (fst (snd e))) (snd (snd e)) pc) as [[ps' o]|] eqn:C; [|assumption].
+  unfold pool_ok; simpl. eapply inv_step; eauto.
 Qed.
 
-Lemma rinv_walk st a s obs st' o : RInv st -> reserve_walk Repaired st a s obs = Some (st', o) -> RInv st'.
+Lemma rinv_walk st f x obs mk st' o : RInv st -> walk Repaired st f x obs mk = Some (st', o) -> RInv st'.
 Proof.
-  unfold reserve_walk. intros F H. destruct obs as [k|].
-  - destruct (assoc_find key_eqb k (r_allocs st)) as [[c ps]|]; [|discriminate].
-    destruct (contains c a); [|discriminate].
-    destruct (on_pool Repaired st k (CReserve a s)) as [[st1 o1]|] eqn:E; [|discriminate].
+  unfold walk. intros F H. destruct obs as [k|].
+  - destruct (assoc_find key_eqb k (r_allocs st f)) as [[ac ps]|]; [|discriminate].
+    destruct (acontains Repaired ac x); [|discriminate].
+    destruct (on_pool Repaired st f k mk) as [[st1 o1]|] eqn:E; [|discriminate].
     inversion H; subst. eapply rinv_on_pool; eauto.
   - destruct (existsb _ _); inversion H; subst; exact F.
 Qed.
 
+Lemma some_pair_inj {A B} (a a' : A) (b b' : B) : Some (a, b) = Some (a', b') -> a = a' /\ b = b'.
+Proof. intros H; inversion H; auto. Qed.
+
+Lemma rinv_rbv st f x obs st' o :
+  RInv st -> reg_step Repaired st (RReleaseByValue f x obs) = Some (st', o) -> RInv st'.
+Proof.
+  intros F H. destruct f.
+  - change (Some (map_pools Repaired st F4 (mk_release Repaired x), ROOk) = Some (st', o)) in H.
+    apply some_pair_inj in H. destruct H as [<- _]. apply rinv_map; exact F.
+  - change (Some (map_pools Repaired st FNA (mk_release Repaired x), ROOk) = Some (st', o)) in H.
+    apply some_pair_inj in H. destruct H as [<- _]. apply rinv_map; exact F.
+  - change (walk Repaired st FPD x obs (mk_release Repaired x) = Some (st', o)) in H.
+    eapply rinv_walk; eauto.
+Qed.
+
+Lemma rinv_setdir st b st' o :
+  RInv st -> reg_step Repaired st (RSetDir b) = Some (st', o) -> RInv st'.
+Proof.
+  intros F H.
+  change (Some (map_pools Repaired (map_pools Repaired (map_pools Repaired st F4 (fun _ => Some (CSetDir b)))
+                                               FNA (fun _ => Some (CSetDir b)))
+                          FPD (fun _ => Some (CSetDir b)), ROOk) = Some (st', o)) in H.
+  apply some_pair_inj in H. destruct H as [<- _]. repeat apply rinv_map. exact F.
+Qed.
+
 Lemma rinv_step st k st' o : RInv st -> reg_step Repaired st k = Some (st', o) -> RInv st'.
 Proof.
-  intros F H. destruct k as [pf ov vrf s obs | k a | k a s obs | a s obs | a | b | k]; simpl in H.
-  - destruct (alloc_target st pf ov vrf) as [t|]; destruct obs as [[k' a]|]; try discriminate.
+  intros F H.
+  destruct k as [f pf ov vrf s obs | f k x | f k x s obs | f x s obs | f k x obs | f x obs | b | f k | f pf];
+    [ | | | | | eapply rinv_rbv; eauto | eapply rinv_setdir; eauto | | ]; cbn [reg_step] in H.
+  - destruct (alloc_target Repaired st f pf ov vrf) as [t|]; destruct obs as [[k' a]|]; try discriminate.
     + destruct (key_eqb t k'); [|discriminate].
-      destruct (on_pool Repaired st t (CAlloc s (Some a))) as [[st1 o1]|] eqn:E; [|discriminate].
+      destruct (on_pool Repaired st f t (mk_alloc Repaired s a)) as [[st1 o1]|] eqn:E; [|discriminate].
       inversion H; subst. eapply rinv_on_pool; eauto.
     + inversion H; subst; exact F.
-  - destruct (on_pool Repaired st k (CRelease a)) as [[st1 o1]|] eqn:E; inversion H; subst; [|exact F].
+  - destruct (on_pool Repaired st f k (mk_release Repaired x)) as [[st1 o1]|] eqn:E; inversion H; subst; [|exact F].
     eapply rinv_on_pool; eauto.
-  - destruct (assoc_find key_eqb k (r_allocs st)).
-    + destruct (on_pool Repaired st k (CReserve a s)) as [[st1 o1]|] eqn:E; [|discriminate].
+  - destruct (assoc_find key_eqb k (r_allocs st f)).
+    + destruct (on_pool Repaired st f k (mk_reserve Repaired x s)) as [[st1 o1]|] eqn:E; [|discriminate].
       inversion H; subst. eapply rinv_on_pool; eauto.
     + eapply rinv_walk; eauto.
   - eapply rinv_walk; eauto.
-  - inversion H; subst. unfold RInv; simpl. apply rinv_map; exact F.
-  - inversion H; subst. unfold RInv; simpl. apply rinv_map; exact F.
-  - destruct (assoc_find key_eqb k (r_allocs st)) as [[c ps]|]; inversion H; subst; exact F.
+  - destruct (assoc_find key_eqb k (r_allocs st f)).
+    + destruct (on_pool Repaired st f k (mk_release Repaired x)) as [[st1 o1]|] eqn:E; [|discriminate].
+      inversion H; subst. eapply rinv_on_pool; eauto.
+    + eapply rinv_walk; eauto.
+  - destruct (assoc_find key_eqb k (r_allocs st f)) as [[c ps]|]; inversion H; subst; exact F.
+  - inversion H; subst; exact F.
 Qed.
 
-Lemma rinv_init_pool pf st p : RInv st -> RInv (init_pool pf st p).
+Lemma rinv_set_vrfs st m : RInv st -> RInv (set_vrfs st m).
+Proof. intros F g. rewrite allocs_set_vrfs. apply F. Qed.
+Lemma rinv_set_lists st f l : RInv st -> RInv (set_lists st f l).
+Proof. intros F g. rewrite allocs_set_lists. apply F. Qed.
+
+Lemma rinv_init_pool v f pf st p : RInv st -> RInv (init_pool v f pf st p).
 Proof.
-  unfold init_pool, RInv; simpl. intros F.
-  destruct (assoc_find key_eqb (pf, rp_name p) (r_allocs st)); [exact F|].
-  destruct (rp_cfg p) as [c|]; [|exact F].
-  apply Forall_app; split; [exact F|]. constructor; [|constructor]. unfold pool_ok; simpl. apply inv_init.
+  unfold init_pool. intros F.
+  set (s1 := if rp_vrf p =? 0 then st else _).
+  assert (F1 : RInv s1) by (unfold s1; destruct (rp_vrf p =? 0); [exact F | apply rinv_set_vrfs, F]).
+  destruct (assoc_find key_eqb (pf, rp_name p) (r_allocs s1 f)); [exact F1|].
+  destruct (rp_cfg p) as [c|]; [|exact F1].
+  apply rinv_set_allocs; [exact F1|].
+  apply Forall_app; split; [apply F1|]. constructor; [|constructor]. unfold pool_ok; simpl. apply inv_init.
 Qed.
 
-Lemma rinv_fold_pools pf : forall ps st, RInv st -> RInv (fold_left (init_pool pf) ps st).
+Lemma rinv_fold_pools v f pf : forall ps st, RInv st -> RInv (fold_left (init_pool v f pf) ps st).
 Proof. induction ps as [|p r IH]; simpl; intros st F; [exact F|]. apply IH, rinv_init_pool, F. Qed.
 
-Lemma rinv_init_profile st pf : RInv st -> RInv (init_profile st pf).
-Proof. intros F. unfold init_profile. apply rinv_fold_pools. exact F. Qed.
+Lemma rinv_init_profile v st pf : RInv st -> RInv (init_profile v st pf).
+Proof. intros F. unfold init_profile. apply rinv_fold_pools, rinv_set_lists, F. Qed.
 
-Lemma rinv_init pfs : RInv (reg_init pfs).
+Lemma rinv_init v pfs : RInv (reg_init v pfs).
 Proof.
-  unfold reg_init. assert (G : forall l st, RInv st -> RInv (fold_left init_profile l st)).
+  unfold reg_init. assert (G : forall l st, RInv st -> RInv (fold_left (init_profile v) l st)).
   { induction l as [|p r IH]; simpl; intros st F; [exact F|]. apply IH, rinv_init_profile, F. }
-  apply G. constructor.
+  apply G. intros f; destruct f; constructor.
 Qed.
 
 Lemma rinv_run : forall ks st st' evs,
@@ -128,7 +196,7 @@ Proof.
     inversion H; subst. eapply IH; [eapply rinv_step; eauto | eauto].
 Qed.
 
-(* ---------------------------------------------------------------- the walk *)
+(* ---------------------------------------------------------------- the walk of Allocate*FromProfile *)
 Lemma find_split {A} (f : A -> bool) l x :
   find f l = Some x -> exists l1 l2, l = l1 ++ x :: l2 /\ f x = true /\ forall y, In y l1 -> f y = false.
 Proof.
@@ -145,69 +213,131 @@ Proof.
   destruct (f y) eqn:E; [discriminate|]. destruct Hz as [->|Hz]; auto.
 Qed.
 
-(* AllocateFromProfile answered (k, a) *)
-Lemma alloc_answer st pf ov vrf s k a st' o :
-  RInv st -> reg_step Repaired st (RAlloc pf ov vrf s (Some (k, a))) = Some (st', o) ->
-  o = ROAddr k a /\
-  (exists c ps, assoc_find key_eqb k (r_allocs st) = Some (c, ps) /\
-                assignable c a = true /\ lm_lookup a (leases ps) = None) /\
+(* what an answer means for the allocator it came from *)
+Definition answer_ok (ac : acfg) (ps : pstate) (o : gobs) : Prop :=
+  match ac, o with
+  | APool c, OA a => assignable c a = true /\ lm_lookup a (leases ps) = None
+  | APd c, OP ip ones bits =>
+      exists i, i < pd_count c /\ ip = index_to_prefix c i /\ ones = pd_plen c /\ bits = 128 /\
+                lm_lookup (key_of_idx i) (leases ps) = None
+  | _, _ => False
+  end.
+
+(* Allocate*FromProfile answered (k, o), any family *)
+Lemma alloc_answer st f pf ov vrf s k o st' r :
+  RInv st -> reg_step Repaired st (RAlloc f pf ov vrf s (Some (k, o))) = Some (st', r) ->
+  r = ROAns k o /\
+  (exists ac ps, assoc_find key_eqb k (r_allocs st f) = Some (ac, ps) /\ answer_ok ac ps o) /\
   ((ov <> 0 /\ k = (pf, ov)) \/
-   (exists l1 l2, pools_of st pf = l1 ++ k :: l2 /\ vrf_of st k = vrf /\
-                  (ov = 0 \/ has_free st (pf, ov) = false) /\
-                  forall k', In k' l1 -> vrf_of st k' = vrf -> has_free st k' = false)).
+   (exists l1 l2, pools_of st f pf = l1 ++ k :: l2 /\ vrf_of Repaired st f k = vrf /\
+                  (ov = 0 \/ has_free st f (pf, ov) = false) /\
+                  forall k', In k' l1 -> vrf_of Repaired st f k' = vrf -> has_free st f k' = false)).
 Proof.
-  intros F H. simpl in H.
-  destruct (alloc_target st pf ov vrf) as [t|] eqn:T; [|discriminate].
+  intros F H. cbn [reg_step] in H.
+  destruct (alloc_target Repaired st f pf ov vrf) as [t|] eqn:T; [|discriminate].
   destruct (key_eqb t k) eqn:EK; [|discriminate]. apply key_eqb_eq in EK; subst t.
   unfold on_pool in H.
-  destruct (assoc_find key_eqb k (r_allocs st)) as [[c ps]|] eqn:EA; [|discriminate].
-  unfold pool_call, norm_call, pool_step in H.
+  destruct (assoc_find key_eqb k (r_allocs st f)) as [[ac ps]|] eqn:EA; [|discriminate].
+  pose proof (rinv_find _ _ _ _ _ F EA) as HI.
+  unfold mk_alloc in H.
+  destruct (aobs_key Repaired ac o) as [a|] eqn:EO; [|discriminate].
+  cbn [pool_step] in H.
   destruct (mem_addr a (free ps)) eqn:M; [|discriminate]. inversion H; subst; clear H.
+  apply mem_addr_In in M. apply HI in M. destruct M as [As L].
   split; [reflexivity|]. split.
-  - exists c, ps. split; [reflexivity|]. apply mem_addr_In in M.
-    apply (rinv_find _ _ _ _ F EA) in M. exact M.
+  - exists ac, ps. split; [reflexivity|].
+    destruct ac as [c|c]; destruct o as [a'|ip ones bits]; unfold aobs_key in EO; try discriminate.
+    + inversion EO; subst. split; assumption.
+    + destruct (prefix_to_index Repaired c (Pfx (Some (V6, ip)) ones bits)) as [i|] eqn:P; [|discriminate].
+      destruct (N.eqb_spec (index_to_prefix c i) ip) as [EI|]; [|discriminate]. inversion EO; subst a.
+      exists i. simpl. repeat split; auto.
+      * unfold assignable, in_range, pd_pool_cfg in As. simpl in As.
+        rewrite !andb_true_iff, N.leb_le in As. unfold pd_count in *.
+        pose proof (pow2_pos (pd_plen c - pd_nbits c)). lia.
+      * rewrite pti_unfold in P.
+        destruct (N.eqb_spec bits 128); destruct (N.eqb_spec ones (pd_plen c)); simpl in P; try discriminate; auto.
+      * rewrite pti_unfold in P. destruct (N.eqb_spec bits 128); simpl in P; try discriminate; auto.
   - unfold alloc_target in T.
-    destruct (negb (ov =? 0) && has_free st (pf, ov)) eqn:EO.
-    + inversion T; subst. left. apply andb_true_iff in EO. destruct EO as [EO _].
-      apply negb_true_iff, N.eqb_neq in EO. auto.
+    destruct (negb (ov =? 0) && has_free st f (pf, ov)) eqn:EV.
+    + inversion T; subst. left. apply andb_true_iff in EV. destruct EV as [EV _].
+      apply negb_true_iff, N.eqb_neq in EV. auto.
     + right. unfold walk_target in T. apply find_split in T. destruct T as [l1 [l2 [E1 [E2 E3]]]].
       apply andb_true_iff in E2. destruct E2 as [E2 _]. apply N.eqb_eq in E2.
       exists l1, l2. repeat split; auto.
-      * apply andb_false_iff in EO. destruct EO as [EO|EO]; [left | right; exact EO].
-        apply negb_false_iff, N.eqb_eq in EO. exact EO.
+      * apply andb_false_iff in EV. destruct EV as [EV|EV]; [left | right; exact EV].
+        apply negb_false_iff, N.eqb_eq in EV. exact EV.
       * intros k' Hk Hv. specialize (E3 _ Hk). apply andb_false_iff in E3.
         destruct E3 as [E3|E3]; [|exact E3]. apply N.eqb_neq in E3. contradiction.
 Qed.
 
-(* AllocateFromProfile reported exhaustion *)
-Lemma alloc_exhausted st pf ov vrf s st' o :
-  reg_step Repaired st (RAlloc pf ov vrf s None) = Some (st', o) ->
-  (ov = 0 \/ has_free st (pf, ov) = false) /\
-  forall k, In k (pools_of st pf) -> vrf_of st k = vrf -> has_free st k = false.
+(* Allocate*FromProfile reported exhaustion *)
+Lemma alloc_exhausted st f pf ov vrf s st' o :
+  reg_step Repaired st (RAlloc f pf ov vrf s None) = Some (st', o) ->
+  (ov = 0 \/ has_free st f (pf, ov) = false) /\
+  forall k, In k (pools_of st f pf) -> vrf_of Repaired st f k = vrf -> has_free st f k = false.
 Proof.
-  intros H. simpl in H. destruct (alloc_target st pf ov vrf) as [t|] eqn:T; [discriminate|].
+  intros H. cbn [reg_step] in H. destruct (alloc_target Repaired st f pf ov vrf) as [t|] eqn:T; [discriminate|].
   unfold alloc_target in T.
-  destruct (negb (ov =? 0) && has_free st (pf, ov)) eqn:EO; [discriminate|]. split.
+  destruct (negb (ov =? 0) && has_free st f (pf, ov)) eqn:EO; [discriminate|]. split.
   - apply andb_false_iff in EO. destruct EO as [EO|EO]; [left | right; exact EO].
     apply negb_false_iff, N.eqb_eq in EO. exact EO.
   - intros k Hk Hv. unfold walk_target in T. pose proof (find_none _ _ T _ Hk) as E.
     apply andb_false_iff in E. destruct E as [E|E]; [|exact E]. apply N.eqb_neq in E. contradiction.
 Qed.
 
-(* has_free is what it says: the pool has an assignable address nobody holds *)
-Lemma has_free_spec st k : RInv st ->
-  (has_free st k = true <->
-   exists c ps a, assoc_find key_eqb k (r_allocs st) = Some (c, ps) /\
-                  assignable c a = true /\ lm_lookup a (leases ps) = None).
+(* has_free is what it says: the allocator has an assignable key nobody holds *)
+Lemma has_free_spec st f k : RInv st ->
+  (has_free st f k = true <->
+   exists ac ps a, assoc_find key_eqb k (r_allocs st f) = Some (ac, ps) /\
+                   assignable (acfg_pool ac) a = true /\ lm_lookup a (leases ps) = None).
 Proof.
-  intros F. unfold has_free. destruct (assoc_find key_eqb k (r_allocs st)) as [[c ps]|] eqn:E.
-  - pose proof (rinv_find _ _ _ _ F E) as [_ M]. split.
+  intros F. unfold has_free. destruct (assoc_find key_eqb k (r_allocs st f)) as [[c ps]|] eqn:E.
+  - pose proof (rinv_find _ _ _ _ _ F E) as [_ M]. split.
     + destruct (free ps) as [|a r] eqn:Fr; [discriminate|]. intros _.
       exists c, ps, a. split; [reflexivity|]. apply M. left; reflexivity.
     + intros [c' [ps' [a [E' HA]]]]. inversion E'; subst. apply M in HA.
       destruct (free ps'); [contradiction | reflexivity].
   - split; [discriminate | intros [c [ps [a [E' _]]]]; discriminate].
 Qed.
+
+(* ---------------------------------------------------------------- VRF map: one per family when repaired *)
+Lemma assoc_find_set_other {A B} (eqb : A -> A -> bool) (S : forall a b, eqb a b = true <-> a = b)
+      k k' (x : B) l : k <> k' -> assoc_find eqb k (assoc_set eqb k' x l) = assoc_find eqb k l.
+Proof.
+  intros N. induction l as [|[k2 y] r IH]; simpl.
+  - destruct (eqb k k') eqn:E; [apply S in E; contradiction | reflexivity].
+  - destruct (eqb k' k2) eqn:E2; simpl.
+    + apply S in E2; subst k2. destruct (eqb k k') eqn:E; [apply S in E; contradiction | reflexivity].
+    + destruct (eqb k k2); [reflexivity | exact IH].
+Qed.
+
+(* configuring a pool of family f never changes the VRF of a pool of another family *)
+Lemma init_pool_vrf_other f g pf st p k :
+  f <> g -> vrf_of Repaired (init_pool Repaired f pf st p) g k = vrf_of Repaired st g k.
+Proof.
+  intros N. unfold init_pool, vrf_of.
+  set (s1 := if rp_vrf p =? 0 then st else _).
+  assert (E1 : assoc_find vkey_eqb (vkey Repaired g k) (r_vrfs s1) = assoc_find vkey_eqb (vkey Repaired g k) (r_vrfs st)).
+  { unfold s1. destruct (rp_vrf p =? 0); [reflexivity|]. simpl.
+    apply assoc_find_set_other; [apply vkey_eqb_eq|]. unfold vkey; simpl. intros E; inversion E; congruence. }
+  assert (E2 : forall s, r_vrfs (match assoc_find key_eqb (pf, rp_name p) (r_allocs s f) with
+                                  | Some _ => s
+                                  | None => match rp_cfg p with
+                                            | Some c => set_allocs s f (r_allocs s f ++ [((pf, rp_name p), (c, pool_init (acfg_pool c)))])
+                                            | None => s end end) = r_vrfs s).
+  { intros s. destruct (assoc_find key_eqb (pf, rp_name p) (r_allocs s f)); [reflexivity|].
+    destruct (rp_cfg p); [|reflexivity]. destruct f; reflexivity. }
+  rewrite E2, E1. reflexivity.
+Qed.
+
+(* the code as found: an IA_NA pool's VRF leaks onto the equally named PD pool *)
+Definition ex_collide : list rprofile :=
+  [ {| rf_name := 1; rf_fam := FNA;
+       rf_pools := [ {| rp_name := 1; rp_prio := 0; rp_vrf := 7;
+                        rp_cfg := Some (APool {| p_fam := V6; p_lo := 16; p_hi := 32; p_excl := [] |}) |} ] |};
+    {| rf_name := 1; rf_fam := FPD;
+       rf_pools := [ {| rp_name := 1; rp_prio := 0; rp_vrf := 0;
+                        rp_cfg := Some (APd {| pd_net := 42540766411282592856903984951653826560; pd_nbits := 48; pd_plen := 56 |}) |} ] |} ].
 
 (* ---------------------------------------------------------------- priority order of the profile list *)
 Definition prio_le (p q : rpool) : Prop := (rp_prio p <= rp_prio q)%Z.
@@ -247,22 +377,82 @@ Proof.
   destruct (G l [] ltac:(constructor)) as [S P]. split; [exact S | exact P].
 Qed.
 
-Lemma assoc_find_set_same {B} k (x : B) l : assoc_find N.eqb k (assoc_set N.eqb k x l) = Some x.
+Lemma init_pool_lists v f pf st p g : r_lists (init_pool v f pf st p) g = r_lists st g.
 Proof.
-  induction l as [|[k' y] r IH]; simpl.
-  - rewrite N.eqb_refl. reflexivity.
-  - destruct (N.eqb k k') eqn:E; simpl; [rewrite N.eqb_refl; reflexivity | rewrite E; exact IH].
+  unfold init_pool.
+  set (s1 := if rp_vrf p =? 0 then st else _).
+  assert (E1 : r_lists s1 g = r_lists st g) by (unfold s1; destruct (rp_vrf p =? 0); [reflexivity | apply lists_set_vrfs]).
+  destruct (assoc_find key_eqb (pf, rp_name p) (r_allocs s1 f)); [exact E1|].
+  destruct (rp_cfg p); [|exact E1]. rewrite lists_set_allocs. exact E1.
 Qed.
 
-Lemma fold_init_pool_profile_pools pf : forall ps st,
-  r_profile_pools (fold_left (init_pool pf) ps st) = r_profile_pools st.
-Proof. induction ps as [|p r IH]; simpl; intros st; [reflexivity|]. rewrite IH. reflexivity. Qed.
+Lemma fold_init_pool_lists v f pf g : forall ps st,
+  r_lists (fold_left (init_pool v f pf) ps st) g = r_lists st g.
+Proof. induction ps as [|p r IH]; simpl; intros st; [reflexivity|]. rewrite IH. apply init_pool_lists. Qed.
 
-(* the list AllocateFromProfile walks is the profile's pools, by ascending priority for v4 *)
-Lemma init_profile_pools st pf :
-  pools_of (init_profile st pf) (rf_name pf) =
-  map (fun p => (rf_name pf, rp_name p)) (if rf_sorted pf then sort_by_prio (rf_pools pf) else rf_pools pf).
+(* the list Allocate*FromProfile walks is the profile's pools: by ascending priority for IPv4,
+   in configuration order for IA_NA and PD *)
+Lemma init_profile_pools v st pf :
+  pools_of (init_profile v st pf) (rf_fam pf) (rf_name pf) =
+  map (fun p => (rf_name pf, rp_name p))
+      (match rf_fam pf with F4 => sort_by_prio (rf_pools pf) | _ => rf_pools pf end).
 Proof.
-  unfold pools_of, init_profile. rewrite fold_init_pool_profile_pools. simpl.
-  rewrite assoc_find_set_same. reflexivity.
+  unfold pools_of, init_profile. rewrite fold_init_pool_lists, lists_set.
+  assert (R : rfam_eqb (rf_fam pf) (rf_fam pf) = true) by (apply rfam_eqb_eq; reflexivity).
+  rewrite R. rewrite assoc_find_set_same by apply N.eqb_refl. reflexivity.
+Qed.
+
+(* ---------------------------------------------------------------- ResolveV4 / ResolveV6 *)
+Lemma resolve4_inv st pf ov vrf s have obs wobs st' r :
+  RInv st -> resolve4 Repaired st pf ov vrf s have obs wobs = Some (st', r) -> RInv st'.
+Proof.
+  unfold resolve4. intros F H. destruct have as [a|].
+  - destruct (reg_step Repaired st (RReserve F4 (RA (Some a)) s wobs)) as [[st1 o]|] eqn:E; [|discriminate].
+    destruct o; inversion H; subst; eapply rinv_step; eauto.
+  - destruct (reg_step Repaired st (RAlloc F4 pf ov vrf s obs)) as [[st1 o]|] eqn:E; [|discriminate].
+    destruct o as [k g| | | | | |]; try discriminate.
+    + destruct g; inversion H; subst. eapply rinv_step; eauto.
+    + inversion H; subst. eapply rinv_step; eauto.
+Qed.
+
+(* ResolveV4 hands out either the address the caller brought (and nobody else held) or an answer of
+   AllocateFromProfile *)
+Lemma resolve4_answer st pf ov vrf s have obs wobs st' a pool :
+  resolve4 Repaired st pf ov vrf s have obs wobs = Some (st', R4 a pool) ->
+  (have = Some a /\ pool = None /\ reg_step Repaired st (RReserve F4 (RA (Some a)) s wobs) = Some (st', ROOk)) \/
+  (have = None /\ exists k, pool = Some k /\
+     reg_step Repaired st (RAlloc F4 pf ov vrf s obs) = Some (st', ROAns k (OA a))).
+Proof.
+  unfold resolve4. intros H. destruct have as [b|].
+  - destruct (reg_step Repaired st (RReserve F4 (RA (Some b)) s wobs)) as [[st1 o]|] eqn:E; [|discriminate].
+    destruct o; inversion H; subst. left. auto.
+  - destruct (reg_step Repaired st (RAlloc F4 pf ov vrf s obs)) as [[st1 o]|] eqn:E; [|discriminate].
+    destruct o as [k g| | | | | |]; try discriminate.
+    destruct g; inversion H; subst. right. split; [reflexivity|]. eauto.
+Qed.
+
+Lemma resolve6_inv st pf naov pdov vrf s hna hpd ona opd wna wpd st' r :
+  RInv st -> resolve6 Repaired st pf naov pdov vrf s hna hpd ona opd wna wpd = Some (st', r) -> RInv st'.
+Proof.
+  unfold resolve6. intros F H.
+  set (r1 := match hna with None => _ | Some a => _ end) in H.
+  assert (F1 : forall st1 b na np, r1 = Some (st1, b, na, np) -> RInv st1).
+  { unfold r1. intros st1 b na np E. destruct hna as [a|].
+    - destruct (reg_step Repaired st (RReserve FNA (RA (Some a)) s wna)) as [[sx o]|] eqn:E1; [|discriminate].
+      destruct o; inversion E; subst; eapply rinv_step; eauto.
+    - destruct (reg_step Repaired st (RAlloc FNA pf naov vrf s ona)) as [[sx o]|] eqn:E1; [|discriminate].
+      destruct o as [k g| | | | | |]; try discriminate.
+      + destruct g; inversion E; subst. eapply rinv_step; eauto.
+      + inversion E; subst. eapply rinv_step; eauto. }
+  destruct r1 as [[[[st1 b] na] np]|]; [|discriminate].
+  specialize (F1 _ _ _ _ eq_refl). destruct b; [inversion H; subst; exact F1|].
+  set (r2 := match hpd with None => _ | Some p => _ end) in H.
+  assert (F2 : forall st2 b pd pp, r2 = Some (st2, b, pd, pp) -> RInv st2).
+  { unfold r2. intros st2 b pd pp E. destruct hpd as [p|].
+    - destruct (reg_step Repaired st1 (RReserve FPD (RP p) s wpd)) as [[sx o]|] eqn:E1; [|discriminate].
+      destruct o; inversion E; subst; eapply rinv_step; eauto.
+    - destruct (reg_step Repaired st1 (RAlloc FPD pf pdov vrf s opd)) as [[sx o]|] eqn:E1; [|discriminate].
+      destruct o as [k g| | | | | |]; try discriminate; inversion E; subst; eapply rinv_step; eauto. }
+  destruct r2 as [[[[st2 b] pd] pp]|]; [|discriminate].
+  inversion H; subst. eapply F2; reflexivity.
 Qed.
